@@ -474,7 +474,7 @@ protected:
 		// Checks that object was not saved previously under the same key
 		assert(this->mNode->GetObject().FindMember(key) == this->mNode->GetObject().MemberEnd());
 
-		this->mNode->AddMember(RapidJsonNode(typename RapidJsonNode::StringRefType(key)), std::move(jsonValue), mAllocator);
+		this->mNode->AddMember(RapidJsonNode(key, mAllocator), std::move(jsonValue), mAllocator);
 		return true;
 	}
 
